@@ -341,7 +341,7 @@ def r2(chk, prog, rule='R2'):
     return f
 
 
-def r3(chk, prog):
+def r3(chk, prog, rule='R3'):
     eq = prog.one('celma::prog_args::detail::ArgumentKey', 'operator==')
     mm = prog.one('celma::prog_args::detail::ArgumentKey', 'mismatch')
     try:
@@ -379,11 +379,11 @@ def r3(chk, prog):
         single = (c2 != 0) != (w2 != 0)
         if single and e != (share_short or share_long) and bad[4] is None:
             bad[4] = (env, e, m)
-    chk.check(bad[1] is None, 'R3', eq.name, 'keys are refused (== or mismatch) exactly when they share a short or a '
+    chk.check(bad[1] is None, rule, eq.name, 'keys are refused (== or mismatch) exactly when they share a short or a '
               'long key', eq.loc(), 'counter example %s' % (bad[1],))
-    chk.check(bad[2] is None, 'R3', mm.name, 'mismatch() exactly when one key form is shared and the other differs',
+    chk.check(bad[2] is None, rule, mm.name, 'mismatch() exactly when one key form is shared and the other differs',
               mm.loc(), 'counter example %s' % (bad[2],))
-    chk.check(bad[4] is None, 'R3', eq.name, 'a command-line key (short or long) equals exactly the arguments that '
+    chk.check(bad[4] is None, rule, eq.name, 'a command-line key (short or long) equals exactly the arguments that '
               'carry it', eq.loc(), 'counter example %s' % (bad[4],))
     chk.samples.append({'truth_table_rows': n, 'atoms': sorted(want)})
 
